@@ -2581,7 +2581,7 @@ func TestVerifC19(t *testing.T) {
 	defer st.write()
 	Initialize()
 	rapid.Check(t, func(t *rapid.T) {
-		kind := rapid.SampledFrom([]string{"bulk", "bulk", "shutdown", "dial", "pool", "closerace", "closerace", "blockedwrite", "blockedwrite", "dialhold", "fdsteps"}).Draw(t, "workload")
+		kind := rapid.SampledFrom([]string{"bulk", "bulk", "shutdown", "dial", "pool", "closerace", "closerace", "blockedwrite", "blockedwrite", "dialhold", "fdsteps", "slices"}).Draw(t, "workload")
 		st.eval()
 		roles := kind
 		switch kind {
@@ -2638,6 +2638,17 @@ func TestVerifC19(t *testing.T) {
 			wt := rapid.SampledFrom([]int{0, 0, 1, 50}).Draw(t, "wtimeout")
 			runBlockedWrite(pl, k, dl, cb, api, wt)
 			roles = fmt.Sprintf("blockedwrite/%d/%d/%d/%d/%d/%d", pl, k, dl, cb, api, wt)
+		case "slices":
+			// Slice readers of one parent read and released on their own goroutines (e1_conc_test.go); the
+			// functional oracles are C02/C03's business, here only the race detector judges
+			c := genConcCase(t, "C19")
+			for r := 0; r < 40; r++ {
+				if _, sig, _, _ := runConcOnce(c, false); sig != "" {
+					st.class("functional-failure-ignored-here:" + sig)
+					break
+				}
+			}
+			roles = fmt.Sprintf("slices/cap%d/%d-writes/%d-readers/%d-tail", c.Cap, len(c.Writes), len(c.Kids), len(c.Tail))
 		case "fdsteps":
 			for i, n := 0, rapid.IntRange(1, 3).Draw(t, "n"); i < n; i++ {
 				k := rapid.SampledFrom(fdStepKinds).Draw(t, "step")
